@@ -8,7 +8,9 @@ package samlidp
 //@ -- lock for updates); locks are not re-acquired while held; every function releases what it took.
 //@ guardedby MemoryStore.data mu
 //@ guardedby Server.serviceProviders idpConfigMu
-//@ mapinv Server.serviceProviders nonnil
+//@ -- and no two entity IDs share one metadata object (an entry is never an alias of another: re-reading one
+//@ -- service must not change what another entity ID resolves to)
+//@ mapinv Server.serviceProviders nonnil distinct
 
 //@ globalinv not_found: ErrNotFound != nil
 //@ globalinv login_template: defaultLoginFormTemplate != nil
